@@ -27,6 +27,10 @@ def script_single(variant):
         i = ops.index("cpu 0 0")
         ops[i + 1:i + 1] = ["cpu %d %d" % (k, k) for k in range(1, 70)]
         ops += ["attr_str test.long %s" % ("x" * 200)]
+    if variant == "autoflush-normal":
+        # more than 2 MiB of normal events between two explicit flushes: the buffer is
+        # flushed from inside ovni_ev_emit
+        ops += ["bulk 80000", "flush"]
     if variant == "nearcap":
         # a jumbo event within 24 bytes of the buffer capacity arriving at a non-empty buffer
         ops += ["ev OB. now 0102", "jumbo OB. now %d 7" % (2097152 - 16 - 10), "ev OB. now -", "flush"]
@@ -36,6 +40,22 @@ def script_single(variant):
         ops += ["jumbo OB. now 9000 3", "ev OB. now -", "attr_str test.key value", "attr_flush", "flush"]
     ops += ["ev OHe now -", "flush", "free", "end", "fini"]
     return "\n".join(ops) + "\n"
+
+
+def script_two_ordered():
+    """Two threads; the first is freed (and relocated) before the second."""
+    out = ["proc 1 node 77"]
+    for k in range(2):
+        tid = 500 + k
+        out += ["thread", "init %d" % tid]
+        if k == 0:
+            out += ["cpu 0 0", "cpu 1 1"]
+        out += ["ev OHx now %s" % obs.i32(k, tid, 0).hex(), "ev OB. now 0102", "jumbo OB. now 20000 3", "ev OB. now -",
+                "ev OHe now -", "flush"]
+        out += (["free", "barrier"] if k == 0 else ["barrier", "ev OB. now 0a0b", "flush", "free"])
+        out += ["end"]
+    out.append("fini")
+    return "\n".join(out) + "\n"
 
 
 def script_multi():
@@ -286,7 +306,7 @@ def main(argv):
     disk = "/var/tmp" if os.access("/var/tmp", os.W_OK) else tempfile.gettempdir()
     _CTX.update(chk=chk, plain=plain, drv=drv, disk=disk)
     quick = chk.tier == "quick"
-    scripts = [("single-small", script_single("small"), True)]
+    scripts = [("single-small", script_single("small"), True), ("single-autoflush-normal", script_single("autoflush-normal"), True)]
     if not quick:
         scripts.append(("single-autoflush", script_single("autoflush"), True))
     # the same program padded so that its stream is an exact multiple of a block size
@@ -308,18 +328,31 @@ def main(argv):
             # one point per (syscall, k): the script is deterministic and single-threaded
             seen = set()
             for (sc, k, pid, rest) in pts:
-                if (sc, k) in seen:
-                    continue
                 seen.add((sc, k))
-                work.append((name, script, mode, inline, sc, k, 0))
+            # the 1 KiB relocation copy loop of a large stream is thousands of identical
+            # read/write calls: keep the first 6, the last 3 and a sample in between
+            bysc = {}
+            for sc, k in sorted(seen):
+                bysc.setdefault(sc, []).append(k)
+            thin = chk.rng(len(work), "thin")
+            for sc, ks in bysc.items():
+                if len(ks) > 40:
+                    mid = ks[6:-3]
+                    ks = ks[:6] + sorted(thin.sample(mid, min(len(mid), 12 if quick else 80))) + ks[-3:]
+                    seen -= set((sc, k) for k in bysc[sc] if k not in ks)
+                for k in ks:
+                    work.append((name, script, mode, inline, sc, k, 0))
             exhaustive["%s/%s" % (name, mode)] = len(seen)
             # the process may also die (or go on) after a *failed* call: one
             # failing write/close/open per point during relocation, then the same
             # examination of the final directory
-            if mode != "direct":
-                for (sc, k) in sorted(seen):
-                    if sc in ("write", "close", "openat", "read"):
-                        work.append((name, script, mode, inline, sc, k, "ENOSPC"))
+            for (sc, k) in sorted(seen):
+                if mode != "direct" and sc in ("write", "close", "openat", "read"):
+                    work.append((name, script, mode, inline, sc, k, "ENOSPC"))
+                elif mode == "direct" and sc == "write":
+                    # a failed write while the trace is being produced: the process stops or
+                    # goes on, what it leaves must still not be finished-and-lacking
+                    work.append((name, script, mode, inline, sc, k, "EIO"))
     # multi-threaded: kill points sampled per syscall, repeated (schedules differ)
     ms = script_multi()
     rng = chk.rng(0, "multi")
@@ -354,7 +387,7 @@ def main(argv):
     cov = {"evaluations": fired, "distinct_nontrivial": len(states), "aligned_stream_sizes": aligned,
            "rule": "kill points = every (file system call, occurrence) of the strace baseline of each deterministic "
                    "single-thread script after the first runtime mkdir, in direct mode and with OVNI_TMPDIR on tmpfs and on "
-                   "ext4 (exhaustive per script and mode), plus sampled points of a 3-thread script; a point counts when "
+                   "ext4 (exhaustive per script and mode, except that long runs of identical 1 KiB copy reads/writes are sampled), and one failed write/close/open/read per such point; plus sampled points of a 3-thread script; a point counts when "
                    "strace reports the SIGKILL. distinct_nontrivial = distinct (mode, final-directory state) signatures "
                    "observed after the kill (per stream: metadata present/torn, finished or not, data none/lacking/complete; "
                    "emulator verdict)",
